@@ -401,8 +401,7 @@ def generic_instances(hyps, skolems):
 
 def alloc_top(h: Heap):
     """every reference handed out up to now is below this bound"""
-    top = getattr(h, "block_top", None)
-    return top if top is not None else h.A0 + h.n_alloc + 1
+    return h.top()
 
 
 def widen(f, h: Heap):
@@ -418,7 +417,7 @@ def verify_query(obs, world, cname, qname, contract, timeout=20000):
     mname = contract.__class__.__name__
     base = f"{REL[cname]}:{cname}.{qname}"
     try:
-        paths = run_method(world, cname, mname, contract, attr_access=contract.attr_access)
+        paths = run_method(world, cname, mname, contract, attr_access=getattr(contract, "attr_access", None), loop_contracts=getattr(contract, "loop_contracts", None))
     except OutOfSubset as e:
         obs.append(Ob(f"E1/{base}", "proof", ERROR, detail=f"out of subset: {e}"))
         return
@@ -428,7 +427,26 @@ def verify_query(obs, world, cname, qname, contract, timeout=20000):
             obs.append(Ob(f"E1/{base}#path{i}", "proof", ERROR, detail="path ended before the call"))
             continue
         kind = "bounded" if hd.get("bounded") else "proof"
+        pid_ = getattr(contract, "pid", "C19")
+        for aname, apc, aass, af in p.asserts:
+            r_, s_, dt_ = solve(list(aass) + list(apc) + [z3.Not(af)], timeout)
+            obs.append(Ob(f"{pid_}/{base}/{aname}#path{i}", kind, DISCHARGED if r_ == z3.unsat else (FAILED if r_ == z3.sat else UNDECIDED), "z3", dt_,
+                          detail="" if r_ == z3.unsat else "intermediate obligation fails"))
+        if p.outcome[0] == "loopstep":
+            continue
+        if hasattr(contract, "result_post"):
+            if p.outcome[0] == "raise":
+                r_, s_, dt_ = solve(list(p.assumptions) + list(p.pc), timeout)
+                obs.append(Ob(f"{pid_}/{base}/does-not-raise#path{i}", kind, DISCHARGED if r_ == z3.unsat else (FAILED if r_ == z3.sat else UNDECIDED), "z3", dt_,
+                              detail="" if r_ == z3.unsat else f"raised {p.outcome[1]}"))
+            else:
+                for cname_, body in contract.result_post(hd["v0"], hd["sym"], p.outcome[1], hd["h1"]):
+                    r_, s_, dt_ = solve(list(p.assumptions) + list(p.pc) + [z3.Not(body)], timeout)
+                    obs.append(Ob(f"{pid_}/{base}/result/{cname_}#path{i}", kind, DISCHARGED if r_ == z3.unsat else (FAILED if r_ == z3.sat else UNDECIDED), "z3", dt_,
+                                  detail="" if r_ == z3.unsat else "result differs from the contract"))
         name = f"C19/{base}/lookup-changes-nothing#path{i}"
+        if pid_ != "C19":
+            name = f"{pid_}/{base}/changes-nothing#path{i}"
         r, s, dt = solve(list(p.assumptions) + list(p.pc) + [z3.Not(unchanged(hd["h0"], hd["h1"], hd["g0"], hd["g1"]))], timeout)
         if r == z3.unsat:
             obs.append(Ob(name, kind, DISCHARGED, "z3", dt))
@@ -671,7 +689,9 @@ def for_hook(interp, s, fr, iterable):
     h = heap_of(interp)
     g = fr.env.get("self")
     # membership array of the collection being traversed and how an element is bound to the loop target
-    if isinstance(iterable, H.SymSeq):
+    if isinstance(iterable, H.DictKeys):
+        C, esort, src = z3.Select(h.dom[iterable.d.t.name], iterable.d.ref), iterable.d.t.ksort, None
+    elif isinstance(iterable, H.SymSeq):
         C, esort = iterable.arr, iterable.esort
         src = iterable.source
     elif isinstance(iterable, H.DictItems):
@@ -684,6 +704,13 @@ def for_hook(interp, s, fr, iterable):
         lc.setup(ctx_iter := None, iterable) if False else lc.setup(None, iterable)
     interp.state["n_loops"] = interp.state.get("n_loops", 0) + 1
     tag = f"L{interp.state['n_loops']}"
+    # local accumulators (`acc = set()` before the loop) become heap objects so that the invariant can speak about them
+    from .values import FSet as _FSet
+
+    for name, tname in getattr(lc, "accumulators", {}).items():
+        cur = fr.env.get(name)
+        if isinstance(cur, _FSet) and not cur.elems:
+            fr.env[name] = H.SetRef(H.SET_TYPES[tname], h.s_new(H.SET_TYPES[tname]))
     ctx = LoopCtx(interp, fr, g, h.snapshot(), C)
     empty = z3.K(esort, z3.BoolVal(False))
     for name, f in lc.inv(ctx, empty):
@@ -695,6 +722,8 @@ def for_hook(interp, s, fr, iterable):
         h.val[n] = z3.Const(f"val_{n}!{tag}", H.DICT_TYPES[n].val_sort)
     for n in lc.modifies_set:
         h.mem[n] = z3.Const(f"mem_{n}!{tag}", H.SET_TYPES[n].mem_sort)
+    if getattr(lc, "allocates", False):
+        h.havoc_alloc(interp, tag)
     if interp.decide(z3.Bool(f"generic_iteration!{tag}")):
         done = z3.Const(f"done!{tag}", z3.ArraySort(esort, z3.BoolSort()))
         x = z3.Const(f"x!{tag}", esort)
